@@ -116,7 +116,20 @@ func (n gnum) normalize() gnum {
 
 func genNum(t *rapid.T) gnum {
 	var n gnum
-	switch c := rapid.IntRange(0, 13).Draw(t, "numclass"); c {
+	switch c := rapid.IntRange(0, 15).Draw(t, "numclass"); c {
+	case 14:
+		// huge exponents: beyond what math/big.Rat reads (1e6) and beyond 32 bits
+		n.mant = digits(t, 1, 5)
+		n.exp = rapid.IntRange(999_990, 1_000_020).Draw(t, "exp-around-rat-limit")
+		if rapid.Bool().Draw(t, "far") {
+			n.exp = rapid.IntRange(1_000_001, 900_000_000_000_000).Draw(t, "exp-huge")
+		}
+		if rapid.Bool().Draw(t, "expneg") {
+			n.exp = -n.exp
+		}
+	case 15:
+		n.mant = "1"
+		n.exp = rapid.SampledFrom([]int{1_000_000, 1_000_001, -1_000_000, -1_000_001, 2147483647, 2147483648, -2147483648, -2147483649, 4294967296, 10_000_000}).Draw(t, "exp-boundary")
 	case 0, 1, 2:
 		v := rapid.IntRange(-20, 20).Draw(t, "small")
 		if v < 0 {
@@ -525,6 +538,9 @@ func mutateNum(t *rapid.T, a, b *gv) string {
 	case 6:
 		label = "num-overflow[exact]"
 		na = gnum{mant: digits(t, 1, 20), exp: rapid.IntRange(310, 5000).Draw(t, "exp"), neg: na.neg}
+		if rapid.IntRange(0, 3).Draw(t, "huge") == 0 {
+			na.exp = rapid.IntRange(999_990, 3_000_000_000).Draw(t, "exp-huge")
+		}
 		nb = na
 		if rapid.Bool().Draw(t, "how") {
 			nb.mant = bumpLastDigit(na.mant)
@@ -534,6 +550,9 @@ func mutateNum(t *rapid.T, a, b *gv) string {
 	case 7:
 		label = "num-underflow"
 		na = gnum{mant: digits(t, 1, 5), exp: rapid.IntRange(-5000, -345).Draw(t, "exp"), neg: na.neg}
+		if rapid.IntRange(0, 3).Draw(t, "huge") == 0 {
+			na.exp = -rapid.IntRange(999_990, 3_000_000_000).Draw(t, "exp-huge")
+		}
 		nb = na
 		switch rapid.IntRange(0, 3).Draw(t, "how") {
 		case 0:
